@@ -1,4 +1,8 @@
+import os
 from plans import step
+
+ROOT = os.path.dirname(os.path.dirname(os.path.dirname(os.path.abspath(__file__))))
+WIDE = os.path.join(ROOT, "corpus", "c14", "wide")
 
 PLAN = dict(
     coq_targets=["Props/C14.vo"],
@@ -13,6 +17,10 @@ PLAN = dict(
         step("label-collision-probe-rv", "codegen-rv", "wf-rv", 2, 8, shards_thorough=1, args=["c14probe"]),
         # the PRINTED x86-64 text (what `scc codegen` writes) of every corpus program and n random ones, assembled by GNU as after the
         # syntax-only transliteration (not linked, not run): operand-size keywords, mnemonics and label syntax of the printer
+        # regression inputs of the repaired finding "tag dispatch immediate" (corpus/c14/wide: codata types with 1100 / 600
+        # destructors, invoke of the last one: the offset 4k exceeds the ADD / ADDI immediate and goes through a scratch register)
+        step("tag-dispatch-regression-a64", "codegen-a64", "wf-a64", 2, 2, shards_thorough=1, args=[WIDE]),
+        step("tag-dispatch-regression-rv", "codegen-all", "wf-rv", 2, 2, shards_thorough=1, args=["--rv-only", WIDE]),
         step("assemble-x86", "native-x86", "c01", 40, 2000, shards_thorough=8, args=["asmonly"],
              viol=r"class=assembler-rejects|class=label-collision-name-digits-e2e"),
     ],
@@ -46,7 +54,7 @@ PLAN = dict(
                 "types <= 2^28 xtors), code_small under size_guard (cg_bound_defs <= 2^40, from C19); the linear discipline cannot be dropped "
                 "(C14_x86_compile_asm_wf_lin_needed: imul [mem], reg); step wf-x86 tags thm / out:<hypothesis> / small-thm and answers "
                 "VIOL class=asm-wf-theorem-contradicted when a real program inside the hypotheses fails asm_wf"
-                " Round 4 (AArch64 / RISC-V): asm_wf cs = None is a THEOREM for the complete output of a64_compile and rv_compile (C14_a64_compile_asm_wf: labels_guard, lin_check_prog, plain names / types, imm_guard_a64 = at most 1024 xtors per type, reach_guard_a64 = 28 + cg_fine_defs 14 74 < 262143 instructions so that every B.cond / ADR target is within 1 MiB - a two-weight refinement of the C19 size theorem, Proof/SizeCodegenFine.v; C14_rv_compile_asm_wf: labels_guard, lin_check_prog, imm_guard_rv = literals 64-bit, at most 512 xtors), code_small for both; the xtor bounds and the AArch64 reach are REAL limits of the back ends (findings in docs/C14.md: a codata type with 1100 / 600 destructors gives `ADD X7, X7, 4396` / `ADD X1 X7 2396`; an else branch over 1 MiB gives a B.cond out of range) and are shown necessary in Coq (C14_a64_compile_asm_wf_xtors_needed, C14_rv_compile_asm_wf_xtors_needed); steps wf-a64 / wf-rv tag thm / out:<hypothesis> / small-thm (quick stream: 220 of 227 and 115 of 116 programs inside, the rest fail lin_check) and answer VIOL class=asm-wf-theorem-contradicted when a real program inside the hypotheses fails asm_wf",
+                " Round 4 (AArch64 / RISC-V): asm_wf cs = None is a THEOREM for the complete output of a64_compile and rv_compile (C14_a64_compile_asm_wf: labels_guard, lin_check_prog, plain names / types, no bound on xtors - the table dispatch beyond the ADD immediate is REPAIRED and goes through X3 -, reach_guard_a64 = 28 + cg_fine_defs 14 74 < 262143 instructions so that every B.cond / ADR target is within 1 MiB - a two-weight refinement of the C19 size theorem, Proof/SizeCodegenFine.v; C14_rv_compile_asm_wf: labels_guard, lin_check_prog, imm_guard_rv = literals 64-bit, fewer than 2^61 xtors - the dispatch beyond the ADDI immediate is REPAIRED and goes through LI), code_small for both; the xtor limits of the old code were genuine violations (a codata type with 1100 / 600 destructors gave `ADD X7, X7, 4396` / `ADD X1 X7 2396`), repaired in the crates; regression lemmas about the old code (C14_a64_compile_asm_wf_xtors_regression, C14_rv_compile_asm_wf_xtors_regression) and regression steps tag-dispatch-regression-a64 / -rv on corpus/c14/wide; the AArch64 reach is a REAL limit (known finding a64-branch-reach: an else branch over 1 MiB gives a B.cond out of range, wf-a64 answers VIOL class=a64-branch-out-of-reach; generator corpus/c14/gen_far_branch.py); steps wf-a64 / wf-rv tag thm / out:<hypothesis> / small-thm (quick stream: 220 of 227 and 115 of 116 programs inside, the rest fail lin_check) and answer VIOL class=asm-wf-theorem-contradicted when a real program inside the hypotheses fails asm_wf",
     assumptions=["instr_wf of Sem/X86Wf.v, Sem/A64Wf.v, Sem/RVWf.v follow the Intel SDM / Arm ARM / RISC-V unprivileged ISA encodings of the forms the printers emit",
                  "GNU as acceptance of the printed x86-64 text is exercised by the native step of C01; no AArch64 / RISC-V assembler exists in the sandbox "
                  "(the RISC-V text of this back end has no accepted concrete syntax: registers X5, no commas, `LW X5 8 X6`)",
